@@ -14,6 +14,10 @@ from . import common
 from . import c01
 
 
+def _gguard(case):
+    return lambda fn: common.guarded(fn, case)
+
+
 def kernel_units(shapes):
     return [{'name': f'kernel {n}x{m}', 'fn': 'unit_kernel', 'args': {'n': n, 'm': m}} for n, m in sorted(set(shapes))]
 
@@ -55,7 +59,7 @@ def lindig_unit(pid, args, prefix=(), max_depth=None):
     cells = harness.cell_vars(n, m)
     objs, props = harness.names(n, m)
 
-    @common.guarded
+    @_gguard(lambda mdl, what: _case(pid, mdl, cells, n, m, what))
     def body():
         cx = core.ctx()
         ctx = concepts.Context(objs, props, harness.sym_rows(cells))
@@ -163,7 +167,7 @@ def neighbors_unit(pid, args, prefix=(), max_depth=None):
     a = z3.BitVec('A', core.W)
     objs, props = harness.names(n, m)
 
-    @common.guarded
+    @_gguard(lambda mdl, what: _case(pid, mdl, cells, n, m, what))
     def body():
         cx = core.ctx()
         intents, extents = matrices.Relation('Properties', 'Objects', props, objs, harness.sym_rows(cells))
@@ -228,7 +232,7 @@ def fcbo_unit(pid, args, prefix=(), max_depth=None):
     objs, props = harness.names(n, m)
     gen = {'fcbo': algorithms.fast_generate_from, 'dual': algorithms.fcbo_dual}[which]
 
-    @common.guarded
+    @_gguard(lambda mdl, what: _case(pid, mdl, cells, n, m, what))
     def body():
         cx = core.ctx()
         ctx = concepts.Context(objs, props, harness.sym_rows(cells))
